@@ -556,6 +556,26 @@ func bodyC19(s *Sim) {
 	s.Chaos()
 	// quiet down, then the judged command
 	s.W.Cfg.KubeletFaults = false
+	if s.W.Extra["final"] == "canary-unpause" && s.rngEnv.IntN(2) == 0 {
+		// the state "auto-paused": a canary pod restarts three times
+		if e := s.Store.GetEDS(def.NS, def.Name); e != nil && e.Status.Canary != nil {
+			for _, p := range s.Store.Pods() {
+				if isDaemonPod(p, def.NS, def.Name) && p.Labels[edsv1.ExtendedDaemonSetReplicaSetNameLabelKey] == e.Status.Canary.ReplicaSet && !terminating(p) {
+					s.kSettle(p)
+					for i := 0; i < 3; i++ {
+						if pp := s.Store.GetPod(p.Namespace, p.Name); pp != nil && len(pp.Status.ContainerStatuses) > 0 {
+							s.kRestart(pp, "Error")
+						}
+					}
+					if pp := s.Store.GetPod(p.Namespace, p.Name); pp != nil {
+						s.kSettle(pp)
+					}
+					s.Stats.NonVacuous["C19.auto-paused-state"]++
+					break
+				}
+			}
+		}
+	}
 	s.fairRounds(2)
 	e := s.Store.GetEDS(def.NS, def.Name)
 	if e == nil {
